@@ -31,6 +31,7 @@ def main():
     lists = []
     lists.append(("full", None))  # the library's own all_x86_architectures alias
     lists.append(("supported", None))  # the library's own supported_architectures alias
+    lists.append(("default", None))  # xsimd::dispatch(f) with no template argument
     for i in range(1, len(FULL)):
         lists.append(("suffix", FULL[i:]))
     for i in range(1, len(FULL)):
@@ -66,6 +67,9 @@ def main():
             f.write("const ListEntry* lists_part_%d(int* n) {\n" % part)
             f.write("  static const ListEntry e[] = {\n")
             for kind, members in chunk:
+                if kind == "default":
+                    f.write('    make_default_entry("default"),\n')
+                    continue
                 if kind == "full":
                     t = "xsimd::all_x86_architectures"
                 elif kind == "supported":
